@@ -26,7 +26,10 @@ def make_app(loop, obs: Obs, behaviours: list, tick=0.001, client_max_size=1024 
     @web.middleware
     async def mw(request, handler):
         n = len(obs.seen)
-        rec = {"n": n, "method": request.method, "target": request.raw_path,
+        # the parser's own message (the property's observation point), not the
+        # normalised request.raw_path, which strips scheme://authority
+        _msg = getattr(request, "_message", None)
+        rec = {"n": n, "method": request.method, "target": _msg.path if _msg is not None else request.raw_path,
                "headers": [(bytes(a), bytes(b)) for a, b in request.raw_headers],
                "version": (request.version.major, request.version.minor),
                "body": None, "error": None, "pre_error": request.pre_handler_error is not None,
